@@ -107,6 +107,7 @@ static void timer_cb(void *data)
 	dropud(i);
 	do_random_ops(1);
 }
+static long feat_neg_after_selfdel;
 static int32_t fd_cb(int32_t fd, int32_t revents, void *data)
 {
 	(void)revents;
@@ -118,7 +119,7 @@ static int32_t fd_cb(int32_t fd, int32_t revents, void *data)
 	int m = R[i].fd_mode;
 	if (m == 0 || R[i].fd_dispatches > 6) { uint64_t v; if (read(fd, &v, 8) < 0) {} }  /* drain: not ready any more */
 	do_random_ops(1);
-	if (R[i].state != ST_LIVE) return 0;                /* deleted itself from inside */
+	if (R[i].state != ST_LIVE) { if (vp_chance(&rng, 1, 2)) { feat_neg_after_selfdel++; return -1; } return 0; }   /* deleted itself from inside; "remove me" on top of that must be harmless (also for what was added meanwhile) */
 	if (m == 2 && R[i].fd_dispatches >= 2) {              /* retire by negative return */
 		R[i].state = ST_DELETED;
 		if (vp_chance(&rng, 2, 3)) { close(fd); R[i].fd_closed = 1; } else feat_neg_fd_open = 1;
@@ -471,6 +472,7 @@ int main(int argc, char **argv)
 	vp_count("adds", n_adds[0] + n_adds[1] + n_adds[2] + n_adds[3]); vp_count("deletes", n_dels[0] + n_dels[1] + n_dels[2] + n_dels[3]);
 	vp_count("deletes_of_probably_queued_items", n_del_queued); vp_count("stale_handle_uses", n_stale); vp_count("fd_numbers_reused", n_fd_reuse);
 	vp_count("ops_from_inside_callbacks", n_inside_ops); vp_count("stops_from_callbacks", n_stop_cb); vp_count("epoll_timeouts_checked", n_epoll_checks);
+	vp_count("negative_return_after_self_delete", feat_neg_after_selfdel);
 	vp_count("timer_queries", n_timer_queries); vp_count("usleep_calls_by_the_loop", n_usleep);
 	vp_finish();
 	return 0;
